@@ -41,10 +41,10 @@ import (
 // c04Plan describes how the answers of the EVM are doctored for one conversion.
 // Empty strings = the real EVM's answer is passed on untouched.
 type c04Plan struct {
-	Bal0   string `json:"bal0,omitempty"`    // +1 | -1 | nil | short | error | vmerror
+	Bal0   string `json:"bal0,omitempty"`    // +1 | -1 | nil | short | long | error | vmerror
 	Est    string `json:"est,omitempty"`     // error
 	Call   string `json:"call,omitempty"`    // false | nil | garbage | short | approval | approval-first | topicless | custom-then-approval | custom-approval-first | error | vmerror | fabricate | amt-1 | amt+1
-	Bal1   string `json:"bal1,omitempty"`    // +1 | -1 | nil | short | error | vmerror | as-expected
+	Bal1   string `json:"bal1,omitempty"`    // +1 | -1 | nil | short | long | error | vmerror | as-expected
 	FailAt int    `json:"fail_at,omitempty"` // the k-th EVM keeper call (ApplyMessage or EstimateGas) returns an error
 }
 
@@ -205,6 +205,20 @@ func (w *c04Wrap) c04Query(ctx sdk.Context, msg core.Message, tracer vm.EVMLogge
 			}
 			res.Ret = c04Word(new(big.Int).Add(new(big.Int).SetBytes(res.Ret[:32]), big.NewInt(d)))
 		}
+	case "long":
+		// return data longer than one ABI word: the real balance, followed by a counter that moves by the amount of the
+		// call.  Only the first word is the answer; a reader that decodes the whole return data sees the counter move
+		if len(res.Ret) >= 32 {
+			c := new(big.Int).Lsh(big.NewInt(1), 128)
+			if after && s.CallAmt != nil {
+				if s.CallKind == 1 {
+					c.Sub(c, s.CallAmt)
+				} else {
+					c.Add(c, s.CallAmt)
+				}
+			}
+			res.Ret = append(append([]byte{}, res.Ret[:32]...), c04Word(c)...)
+		}
 	case "as-expected":
 		// whatever really happened, report what the module hopes to see
 		// (an unusable first answer counts as 0, the most plausible default of a careless reader)
@@ -297,6 +311,10 @@ func (w *c04Wrap) c04Commit(ctx sdk.Context, msg core.Message, tracer vm.EVMLogg
 		res.Logs = append([]*evmtypes.Log{extra(approval)}, res.Logs...)
 	case "topicless":
 		res.Logs = append(res.Logs, extra(nil))
+	case "topicless-then-approval":
+		// an anonymous (topic-less) log in front of the Approval: on the way to the Approval the scan must not give up
+		// (the unchanged handler panics on the topic-less log, which rolls the message back - also fine)
+		res.Logs = append(res.Logs, extra(nil), extra(approval))
 	case "custom-then-approval":
 		// an event the ERC-20 ABI does not know (a fee-on-transfer token's own event) in front of the Approval:
 		// the scan for Approval events must not stop at it
